@@ -276,14 +276,17 @@ def tlc_run(module, cfg, tag, timeout=3000, workers=None, env_extra=None, simula
         cmd += ["-simulate", simulate]
     cmd += ["-config", os.path.join(SPEC, cfg), os.path.join(SPEC, module + ".tla")]
     env = dict(os.environ)
-    if jvm:
-        env["JAVA_TOOL_OPTIONS"] = jvm
+    # TLC unpacks its standard modules into java.io.tmpdir on every run: keep that inside work/ and remove it afterwards
+    tmpd = md + "-tmp"
+    os.makedirs(tmpd, exist_ok=True)
+    env["JAVA_TOOL_OPTIONS"] = ((jvm + " ") if jvm else "") + "-Djava.io.tmpdir=" + tmpd
     if env_extra:
         env.update(env_extra)
     t0 = time.time()
     with open(outp, "w") as f:
         p = subprocess.run(cmd, stdout=f, stderr=subprocess.STDOUT, env=env, cwd=os.path.join(WORK, "tlc"))
     shutil.rmtree(md, ignore_errors=True)
+    shutil.rmtree(tmpd, ignore_errors=True)
     text = open(outp).read()
     st = _parse_tlc_stats(text)
     st["cached"] = False
